@@ -103,11 +103,11 @@ Section Eval.
   Definition select (bs : list (nat * value)) : list value :=
     let pick n := map snd (filter (fun p => Nat.eqb (fst p) n) bs) in
     match pick 0 with
-    | _ :: _ as l => l
+    | (_ :: _) as l => l
     | [] => match pick 1 with
-            | _ :: _ as l => l
+            | (_ :: _) as l => l
             | [] => match pick 2 with
-                    | _ :: _ as l => l
+                    | (_ :: _) as l => l
                     | [] => pick 3
                     end
             end
